@@ -144,4 +144,99 @@ example : Peelable (fun _ => 2) (fun _ => 1)
   simp [sumOut, sumVar, upd, List.range_succ]
   norm_num
 
+/-! ### max-product: the max-calibrated tree (max_calibrate / MAP by belief propagation) -/
+
+/-- max_{x < K v} g(a[v := x]) -/
+def maxVar (K : Var → Nat) (v : Var) (g : Asg → Rat) : Asg → Rat :=
+  fun a => maxR ((List.range (K v)).map (fun x => g (upd a v x)))
+
+/-- maximise over the variables of the list, first one innermost -/
+def maxOut (K : Var → Nat) : List Var → (Asg → Rat) → (Asg → Rat)
+  | [], g => g
+  | v :: vs, g => maxOut K vs (maxVar K v g)
+
+theorem maxOut_append (K : Var → Nat) : ∀ (l l' : List Var) (g : Asg → Rat),
+    maxOut K (l ++ l') g = maxOut K l' (maxOut K l g)
+  | [], _, _ => rfl
+  | v :: l, l', g => by simp only [List.cons_append, maxOut]; exact maxOut_append K l l' _
+
+/-- a non-negative constant factors out of a maximum over a non-empty list -/
+theorem maxR_map_mul_left {ι : Type} (l : List ι) (hl : l ≠ []) (c : Rat) (hc : 0 ≤ c) (f : ι → Rat) :
+    maxR (l.map (fun y => c * f y)) = c * maxR (l.map f) := by
+  have hne1 : l.map (fun y => c * f y) ≠ [] := by simpa using hl
+  have hne2 : l.map f ≠ [] := by simpa using hl
+  apply le_antisymm
+  · obtain ⟨y0, _, hy0⟩ := List.mem_map.mp (maxR_mem _ hne1)
+    rw [← hy0]
+    exact mul_le_mul_of_nonneg_left (maxR_ge _ _ (List.mem_map.mpr ⟨y0, ‹_›, rfl⟩)) hc
+  · obtain ⟨y1, hy1m, hy1⟩ := List.mem_map.mp (maxR_mem _ hne2)
+    rw [← hy1]
+    exact maxR_ge _ _ (List.mem_map.mpr ⟨y1, hy1m, rfl⟩)
+
+theorem maxVar_mul_const (K : Var → Nat) (v : Var) (hK : 0 < K v) (c g : Asg → Rat)
+    (hc : ∀ a x, c (upd a v x) = c a) (a : Asg) (hca : 0 ≤ c a) :
+    maxVar K v (fun b => c b * g b) a = c a * maxVar K v g a := by
+  unfold maxVar
+  have : (List.range (K v)).map (fun x => c (upd a v x) * g (upd a v x))
+      = (List.range (K v)).map (fun x => c a * g (upd a v x)) := by
+    apply List.map_congr_left; intro x _; rw [hc]
+  rw [this]
+  exact maxR_map_mul_left _ (by simp; omega) (c a) hca _
+
+theorem maxOut_mul_const (K : Var → Nat) : ∀ (vs : List Var) (c g : Asg → Rat), (∀ v ∈ vs, 0 < K v) →
+    IndepOf c vs → (∀ a, 0 ≤ c a) → ∀ a, maxOut K vs (fun b => c b * g b) a = c a * maxOut K vs g a
+  | [], _, _, _, _, _, _ => rfl
+  | v :: vs, c, g, hK, hc, hpos, a => by
+    simp only [maxOut]
+    have h1 : maxVar K v (fun b => c b * g b) = fun b => c b * maxVar K v g b := by
+      funext b
+      exact maxVar_mul_const K v (hK v List.mem_cons_self) c g (fun a' x => hc a' v x List.mem_cons_self) b (hpos b)
+    rw [h1]
+    exact maxOut_mul_const K vs c (maxVar K v g) (fun w hw => hK w (List.mem_cons_of_mem _ hw))
+      (fun a' w x hw => hc a' w x (List.mem_cons_of_mem _ hw)) hpos a
+
+theorem treeMeasure_nonneg (b0 : Asg → Rat) (h0 : ∀ a, 0 ≤ b0 a) : ∀ (L : List Leaf),
+    (∀ d ∈ L, ∀ a, 0 ≤ d.β a ∧ 0 < d.μ a) → ∀ a, 0 ≤ treeMeasure b0 L a
+  | [], _, a => h0 a
+  | c :: rest, hL, a => by
+    simp only [treeMeasure]
+    have ih := treeMeasure_nonneg b0 h0 rest (fun d hd => hL d (List.mem_cons_of_mem _ hd)) a
+    obtain ⟨hb, hm⟩ := hL c List.mem_cons_self a
+    exact mul_nonneg ih (div_nonneg hb (le_of_lt hm))
+
+/-- leaf-peeling order + running intersection + MAX-calibration, non-negative beliefs, positive sepsets -/
+def MaxPeelable (K : Var → Nat) (b0 : Asg → Rat) : List Leaf → Prop
+  | [] => True
+  | c :: rest =>
+      IndepOf b0 c.priv ∧ (∀ d ∈ rest, IndepOf d.β c.priv ∧ IndepOf d.μ c.priv) ∧
+      IndepOf c.μ c.priv ∧ (∀ a, maxOut K c.priv c.β a = c.μ a) ∧ (∀ v ∈ c.priv, 0 < K v) ∧
+      MaxPeelable K b0 rest
+
+/-- **max-calibrated tree ⇒ exact max-marginal**: maximising the clique-tree measure over every variable
+    outside the root clique returns the root belief (the max-product analogue of
+    `C02_calibrated_tree_exact`; what `max_calibrate` / `map_query` by belief propagation rely on) -/
+theorem C02_max_calibrated_tree_exact (K : Var → Nat) (b0 : Asg → Rat) (h0 : ∀ a, 0 ≤ b0 a) : ∀ (L : List Leaf),
+    (∀ d ∈ L, ∀ a, 0 ≤ d.β a ∧ 0 < d.μ a) → MaxPeelable K b0 L →
+    maxOut K (L.flatMap Leaf.priv) (treeMeasure b0 L) = b0
+  | [], _, _ => rfl
+  | c :: rest, hL, ⟨hb0, hrest, hmu, hcal, hK, hP⟩ => by
+    have hLr : ∀ d ∈ rest, ∀ a, 0 ≤ d.β a ∧ 0 < d.μ a := fun d hd => hL d (List.mem_cons_of_mem _ hd)
+    have hM : IndepOf (treeMeasure b0 rest) c.priv := treeMeasure_indep b0 c.priv rest hb0 hrest
+    have hMpos := treeMeasure_nonneg b0 h0 rest hLr
+    have hc := hL c List.mem_cons_self
+    have hinv : IndepOf (fun b => 1 / c.μ b) c.priv := by
+      intro a v x hv; simp only [hmu a v x hv]
+    have hinvpos : ∀ a, 0 ≤ 1 / c.μ a := fun a => le_of_lt (one_div_pos.mpr (hc a).2)
+    have step : maxOut K c.priv (treeMeasure b0 (c :: rest)) = treeMeasure b0 rest := by
+      funext a
+      have e1 : treeMeasure b0 (c :: rest) = fun b => treeMeasure b0 rest b * ((fun b => c.β b / c.μ b) b) := rfl
+      rw [e1, maxOut_mul_const K c.priv _ _ hK hM hMpos a]
+      have e2 : (fun b => c.β b / c.μ b) = fun b => (1 / c.μ b) * c.β b := by funext b; ring
+      rw [e2, maxOut_mul_const K c.priv _ _ hK hinv hinvpos a, hcal a]
+      have := ne_of_gt (hc a).2
+      field_simp
+    rw [List.flatMap_cons, maxOut_append, step]
+    exact C02_max_calibrated_tree_exact K b0 h0 rest hLr hP
+
+
 end PgmVerif
